@@ -21,6 +21,7 @@ import (
 	"io"
 	"log/slog"
 	"math"
+	"strings"
 	"sync/atomic"
 	"time"
 
@@ -29,6 +30,7 @@ import (
 	pb "google.golang.org/protobuf/proto"
 
 	"github.com/oxia-db/oxia/common/channel"
+	"github.com/oxia-db/oxia/common/compare"
 	"github.com/oxia-db/oxia/common/constant"
 	time2 "github.com/oxia-db/oxia/common/time"
 
@@ -655,9 +657,33 @@ func (d *db) applyDelete(batch WriteBatch, notifications *notifications, delReq 
 
 const DeleteRangeThreshold = 100
 
+// The internal records are the keys whose first path segment is "__oxia": in the hierarchical
+// order they form the contiguous block [internalKeysStart, internalKeysEnd).
+const (
+	internalKeysStart = constant.InternalKeyPrefix
+	internalKeysEnd   = "__oxia\x00/"
+)
+
 func (d *db) applyDeleteRange(batch WriteBatch, notifications *notifications, delReq *proto.DeleteRangeRequest, updateOperationCallback UpdateOperationCallback) (*proto.DeleteRangeResponse, error) {
 	if notifications != nil {
 		notifications.DeletedRange(delReq.StartInclusive, delReq.EndExclusive)
+	}
+
+	if start, end := delReq.StartInclusive, delReq.EndExclusive; !strings.HasPrefix(start, constant.InternalKeyPrefix) &&
+		compare.CompareWithSlash([]byte(start), []byte(internalKeysStart)) < 0 &&
+		(end == "" || compare.CompareWithSlash([]byte(internalKeysStart), []byte(end)) < 0) {
+		// In the hierarchical order, the internal records are one contiguous block that sorts inside
+		// some ranges of user keys (eg: ["a", "a/b")). A range of user keys must never touch them:
+		// delete what is below and what is above that block
+		if _, err := d.applyDeleteRange(batch, nil, &proto.DeleteRangeRequest{
+			StartInclusive: start, EndExclusive: internalKeysStart}, updateOperationCallback); err != nil {
+			return nil, err
+		}
+		if end != "" && compare.CompareWithSlash([]byte(end), []byte(internalKeysEnd)) <= 0 {
+			return &proto.DeleteRangeResponse{Status: proto.Status_OK}, nil
+		}
+		return d.applyDeleteRange(batch, nil, &proto.DeleteRangeRequest{
+			StartInclusive: internalKeysEnd, EndExclusive: end}, updateOperationCallback)
 	}
 
 	it, err := batch.RangeScan(delReq.StartInclusive, delReq.EndExclusive)
